@@ -1716,7 +1716,25 @@ impl<'a> Run<'a> {
             let node = self.node.lock();
             let txids: BTreeSet<bitcoin::Txid> =
                 node.blocks.get(&pb).map(|b| b.0.txdata.iter().map(|t| t.compute_txid()).collect()).unwrap_or_default();
+            let pb_height = node.blocks.get(&pb).map(|b| b.1);
             drop(node);
+            // The gatekeeper is the first listener: users whose grace period was over at that block were purged by it
+            // (durably) before the crash. That block was connected; its purge stands.
+            if let Some(ph) = pb_height {
+                let db = self.db(ctx);
+                let gone: Vec<u32> = self
+                    .model
+                    .users
+                    .iter()
+                    .filter(|(_, m)| ph as u64 >= m.expiry as u64 + self.model.cfg.grace as u64 && !db.users.iter().any(|r| r.user_id == m.pk))
+                    .map(|(u, _)| *u)
+                    .collect();
+                for u in gone {
+                    self.model.users.remove(&u);
+                    self.model.recs.retain(|k, _| k.0 != u);
+                    self.model.probe("user_purged_by_interrupted_block");
+                }
+            }
             let keys: Vec<(u32, u32)> = self.model.recs.keys().cloned().collect();
             for k in keys {
                 let touched = {
